@@ -109,10 +109,9 @@ def run_group(item):
     obs, res, ev, tabs = record.execute(base)
     rows0 = record.law_rows(base, res, tabs)
     out = {'gid': gid, 'laws': [], 'api': [], 'splits': []}
-    # wide groups (many rows, many jobs) are judged by the EQ law; the envelope only where EQ does not apply
-    with_api = not base.get('_wide') or base.get('_wide_api') or (
-        base['api'].split('.')[0] not in EQ_APIS and len(base['R']['rows']) <= 40)
-    if with_api:
+    # every run is judged by the envelope; of the wide groups (many rows, many jobs) only the k-job run
+    with_api = True
+    if not base.get('_wide'):
         out['api'].append(record.abstract(base, obs, res, tabs, 0))
     for label, c in vars_:
         if '_before' in c:
@@ -164,10 +163,8 @@ def run(tier, seed):
             rvals = [(j * 7 + n + (j // 4)) % 4 for j in range(n)]
             base = base_case(rng, rvals, kind, api)
             base['_src'] = 'wide:n=%d:k=%d' % (n, k)
-            base['_wide'] = 1
-            # the envelope (missed / spurious pairs, C01-C04) as well for the job counts beyond the processor count
-            # and a fifth of the grid
-            base['_wide_api'] = int(k >= 16 or (n + k) % 5 == 0)
+            base['_wide'] = 1      # the k-job run is judged by the envelope as well (missed / spurious pairs, C01-C04)
+            base['L']['rows'] = base['L']['rows'][:3] + base['L']['rows'][6:]      # x | x y | '' | x y z
             c = copy.deepcopy(base)
             c['n_jobs'] = k
             groups.append((len(groups) + 1, base, [('n_jobs=%d' % k, c)]))
